@@ -137,4 +137,17 @@ func fbb.writeSecureLoginResponse(w, response) (err)
 func fbb.writeSID(w, appName, appVersion) (err)
   props C05
   call fmt.Fprintf requires format: $1 == "[%s-%s-%s]\r" && len($2) == 3 && same(unbox($2[0]), appName) && same(unbox($2[1]), appVersion)
+
+# MID / Bytes as seen by other packages: deterministic functions of the message
+# (assumption: the message's Mid header and content are not changed between the
+# calls made inside one mailbox operation)
+func fbb.(*Message).MID(m) (r)
+  props C09
+  trusted
+  functional
+
+func fbb.(*Message).Bytes(m) (data, err)
+  props C09
+  trusted
+  pure
 @*/
